@@ -1438,6 +1438,9 @@ func (e *Entry) Find(name string) *Entry {
 					}
 				}
 				e = e.RPC.Output
+			default:
+				// An rpc has no children other than input and output.
+				e = e.Dir[part]
 			}
 		default:
 			_, part = getPrefix(part)
